@@ -159,7 +159,8 @@ pub fn gen(r: &mut Rng) -> Value {
                 let al: Vec<String> = (0..k).map(|_| r.pick(&pool).to_string()).collect();
                 ops.push(json!({"op": "set", "name": name, "aliases": al}));
             }
-            5..=7 => ops.push(json!({"op": "remove", "x": r.pick(&pool)})),
+            5 | 6 => ops.push(json!({"op": "remove", "x": r.pick(&pool)})),
+            7 => ops.push(json!({"op": "names"})),
             _ => ops.push(json!({"op": "get", "x": r.pick(&pool)})),
         }
     }
@@ -202,6 +203,14 @@ pub fn run(input: &Value) -> Option<Value> {
                 let got = real.remove(&x);
                 if got != existed {
                     return Some(json!({"step": i, "what": "remove result differs", "model": existed}));
+                }
+            }
+            "names" => {
+                // every registered name, each once, in sorted order
+                let want: Vec<String> = names.keys().cloned().collect();
+                let got = real.get_all_command_names();
+                if got != want {
+                    return Some(json!({"step": i, "what": "get_all_command_names differs from the sorted name table", "model": want, "real": got}));
                 }
             }
             "get" => {
